@@ -1,10 +1,10 @@
 (* options family: parsing and printing only.
    opt <id>
-     <ncli> { L|S <name> <ntok> tok* }
+     <ncli> { L|S|B <name> <ntok> tok* }          (B: a bare word, name ignored)
      dflt  none | file <nitems> { <name> <ntok> tok* }
      cfg   none | <tok> devnull | <tok> missing | <tok> file <nitems> { <name> <ntok> tok* }
      <nbad> { <ty> <tok> }   <nzero> { tok }   <nround> { <ty> <tok> <tok'> }   <reloadtok>
-   tokens are decimal integers. *)
+   tokens are decimal integers.  Output additionally: `law <bool>` = reparse_lawb for the case's oracle (C13). *)
 let cs_of_string (s : string) : char list = List.init (String.length s) (String.get s)
 let coqstr (s : string) : char list = cs_of_string s
 let ocstr (l : char list) : string = String.init (List.length l) (List.nth l)
@@ -36,7 +36,7 @@ let do_opt () =
   let cli = List.init ncli (fun _ ->
       let k = next () in let nm = coqstr (next ()) in let n = nexti () in
       let ts = List.init n (fun _ -> nextz ()) in
-      ((if k = "L" then Long nm else Short nm), ts)) in
+      ((if k = "L" then Long nm else if k = "S" then Short nm else Bare), ts)) in
   let conv l = List.map (fun (nm, ts) -> (coqstr nm, ts)) l in
   let _ = next () in
   let dflt = match next () with
@@ -62,6 +62,7 @@ let do_opt () =
   let round6 ty t = match List.assoc_opt (ty, int_of_z t) rounds with Some b -> z_of_int b | None -> t in
   let fs t = match cfgtok with Some c when c = int_of_z t -> cfgent | _ -> FNoFile in
   Printf.printf "case %s\n" id;
+  Printf.printf "law %b\n" (reparse_lawb gen_table wf gen_wrules);
   (match parse gen_table wf gen_prog cli fs dflt with
    | Fail -> print_string "status fail\n"
    | Stop -> print_string "status stop\n"
